@@ -398,7 +398,8 @@ func (c *client) dead(op *shim.Op) error {
 	if op.Mutating {
 		return shim.ErrDrop
 	}
-	return errDied
+	// "does not exist": the dead client's clean-ups (Rm, Unlock with its ten delayed retries) then end at once
+	return &os.PathError{Op: "dead-client", Path: op.Path, Err: syscall.ENOENT}
 }
 
 func (c *client) hook(op *shim.Op) error {
@@ -441,6 +442,16 @@ func (c *client) hook(op *shim.Op) error {
 	case "short":
 		if op.Name == "f.Write" {
 			return &shim.ShortWriteError{N: f.shortN(op.N)}
+		}
+		return errInjected
+	case "enoent": // the "does not exist" lie (stale handle, racing rename) about something that is there
+		return &os.PathError{Op: strings.ToLower(strings.TrimPrefix(op.Name, "f.")), Path: op.Path, Err: syscall.ENOENT}
+	case "eacces":
+		return &os.PathError{Op: strings.ToLower(strings.TrimPrefix(op.Name, "f.")), Path: op.Path, Err: syscall.EACCES}
+	case "partiallist": // the listing breaks off: half of the names and an error
+		if op.Name == "f.Readdirnames" || op.Name == "f.Readdir" {
+			c.w.strict.arm(&writeTrick{path: np, keep: -1})
+			return nil
 		}
 		return errInjected
 	case "ctxcancel":
